@@ -1051,6 +1051,77 @@ theorem migrate_turn_keeps_request (fresh : Nat → Value) (fadd : Bytes → Opt
       obtain ⟨r1, r2, r3, _, _⟩ := request_preserved n f d _ hc hx
       exact ⟨rfl, r1, r2, r3, by have := conv_writes_next_version n f d _ hc hx; simpa using this⟩
 
+
+/-! #### success, not only correctness: the two most recent formats DO convert -/
+
+private theorem dupd_succeeds (d : Dict) (n : Bytes) (sd : Dict) (f : Dict → Option Dict) (sd' : Dict)
+    (h : dget d n = some (.dict sd)) (hf : f sd = some sd') : dupd d n f = some (dset d n (.dict sd')) := by
+  unfold dupd
+  simp [h, asDict, hf]
+
+/-- **format_19_20_records_convert.** A format-19 record whose two connection records are dicts carrying `tls_version` — what every
+    release writing formats 19 and 20 stored — is converted by 19→20 and then by 20→21: the converters do not raise on it, and the
+    result carries version 21. (The existence half of "loads" for the two most recent old formats; for older formats it rests
+    on the differential runs, see `level_note`.) -/
+theorem format_19_20_records_convert (d cc sc : Dict) (tvc tvs : Value)
+    (h1 : dget d (s "client_conn") = some (.dict cc)) (h2 : dget d (s "server_conn") = some (.dict sc))
+    (h3 : dget cc (s "tls_version") = some tvc) (h4 : dget sc (s "tls_version") = some tvs) :
+    ∃ d', chain19 d = some d' ∧ dget d' (s "version") = some (.int 21) := by
+  -- 19 → 20
+  have a1 : dget (setVersion d 20) (s "client_conn") = some (.dict cc) := by
+    rw [← h1]; exact dget_dset_ne _ _ _ _ (by decide +kernel)
+  have e1 := dupd_succeeds (setVersion d 20) (s "client_conn") cc (fun c => pure (dpop c (s "state"))) _ a1 rfl
+  have a2 : dget (dset (setVersion d 20) (s "client_conn") (.dict (dpop cc (s "state")))) (s "server_conn") = some (.dict sc) := by
+    rw [dget_dset_ne _ _ _ _ (by decide +kernel), ← h2]; exact dget_dset_ne _ _ _ _ (by decide +kernel)
+  have e2 := dupd_succeeds _ (s "server_conn") sc (fun c => pure (dpop c (s "state"))) _ a2 rfl
+  have c1920 : ∃ d20, conv_19_20 d = some d20 ∧
+      dget d20 (s "client_conn") = some (.dict (dpop cc (s "state"))) ∧ dget d20 (s "server_conn") = some (.dict (dpop sc (s "state"))) := by
+    refine ⟨dset (dset (setVersion d 20) (s "client_conn") (.dict (dpop cc (s "state")))) (s "server_conn")
+        (.dict (dpop sc (s "state"))), ?_, ?_, dget_dset_same _ _ _⟩
+    · unfold conv_19_20
+      simp only [Option.bind_eq_bind, e1, Option.bind_some]
+      exact e2
+    · rw [dget_dset_ne _ _ _ _ (by decide +kernel)]; exact dget_dset_same _ _ _
+  obtain ⟨d20, hd20, g1, g2⟩ := c1920
+  -- 20 → 21
+  have t1 : dget (dpop cc (s "state")) (s "tls_version") = some tvc := by
+    rw [dget_dpop_ne _ _ _ (by decide +kernel)]; exact h3
+  have t2 : dget (dpop sc (s "state")) (s "tls_version") = some tvs := by
+    rw [dget_dpop_ne _ _ _ (by decide +kernel)]; exact h4
+  have b1 : dget (setVersion d20 21) (s "client_conn") = some (.dict (dpop cc (s "state"))) := by
+    rw [← g1]; exact dget_dset_ne _ _ _ _ (by decide +kernel)
+  have c2021 : ∃ d21, conv_20_21 d20 = some d21 := by
+    unfold conv_20_21
+    simp only [Option.bind_eq_bind]
+    cases hx1 : dupd (setVersion d20 21) (s "client_conn") (fun c => do
+        let tv ← dget c (s "tls_version")
+        pure (match tv with
+          | .str u => if u == s "QUIC" then dset c (s "tls_version") (.str (s "QUICv1")) else c
+          | _ => c)) with
+    | none =>
+      exfalso
+      unfold dupd at hx1
+      simp [b1, asDict, t1] at hx1
+    | some x1 =>
+      simp only [Option.bind_some]
+      have hx1b : dget x1 (s "server_conn") = some (.dict (dpop sc (s "state"))) := by
+        rw [dget_dupd_ne _ _ _ _ _ (by decide +kernel) hx1]
+        rw [← g2]; exact dget_dset_ne _ _ _ _ (by decide +kernel)
+      cases hx2 : dupd x1 (s "server_conn") (fun c => do
+          let tv ← dget c (s "tls_version")
+          pure (match tv with
+            | .str u => if u == s "QUIC" then dset c (s "tls_version") (.str (s "QUICv1")) else c
+            | _ => c)) with
+      | none =>
+        exfalso
+        unfold dupd at hx2
+        simp [hx1b, asDict, t2] at hx2
+      | some x2 => exact ⟨x2, rfl⟩
+  obtain ⟨d21, hd21⟩ := c2021
+  refine ⟨d21, ?_, conv_writes_next_version 20 _ d20 d21 rfl hd21⟩
+  unfold chain19
+  simp [hd20, hd21]
+
 /-! #### the whole modelled chain 12 → 21 -/
 
 def chain12_21 (d : Dict) : Option Dict := chain12_18 d >>= conv_18_19 >>= chain19
